@@ -3,8 +3,11 @@ package harness
 // C11 - sizes recorded and returned by builders are the true cumulative / content sizes.
 
 import (
+	"bytes"
 	"fmt"
+	"io"
 	"testing"
+	"testing/iotest"
 
 	pb "github.com/ipfs/boxo/ipld/unixfs/pb"
 	"github.com/ipfs/go-cid"
@@ -103,6 +106,24 @@ func TestC11_P_Sizes(t *testing.T) {
 		var err error
 		ext := map[cid.Cid]uint64{}
 		fp, nt := "", false
+		// history: a failed or abandoned build earlier in the process must not change what the next build reports
+		switch rapid.IntRange(0, 5).Draw(t, "prelude") {
+		case 0:
+			bad := NewStore()
+			bad.FailWriteAt = rapid.IntRange(1, 3).Draw(t, "failWriteAt")
+			_, _, _ = buildFile(bad, lcgBytes(40, 1, 0), "size-8", 2)
+			ev.Count("prelude:failed-write", 1)
+		case 1:
+			bad := NewStore()
+			bad.FailCommitAt = rapid.IntRange(1, 3).Draw(t, "failCommitAt")
+			_, _, _ = buildSharded(bad, []entrySpec{entryFor("a", 1), entryFor("b", 1)}, 8)
+			ev.Count("prelude:failed-commit", 1)
+		case 2:
+			// source reader fails half way through
+			r := io.MultiReader(bytes.NewReader(lcgBytes(30, 2, 0)), iotest.ErrReader(fmt.Errorf("source failed")))
+			_, _, _ = buildFileR(NewStore().LinkSystem(), r, "size-8", 2)
+			ev.Count("prelude:aborted-build", 1)
+		}
 		var sample map[string]any
 		switch kind {
 		case "file":
